@@ -43,7 +43,7 @@ def init_worker(k):
     FLAG["k"] = k
 
 
-def task(logdir, call_no, i, fails, delay, exc="TaskFail"):
+def task(logdir, call_no, i, fails, delay, exc="TaskFail", extra=None):
     fd = os.open(os.path.join(logdir, "exec.log"), os.O_WRONLY | os.O_APPEND | os.O_CREAT)
     os.write(fd, ("%d %d %d\n" % (call_no, i, os.getpid())).encode())
     os.close(fd)
@@ -68,6 +68,10 @@ def task(logdir, call_no, i, fails, delay, exc="TaskFail"):
     return (call_no, i, FLAG.get("k"))
 
 
+PULLS = {}
+FASTFAIL = [False]
+
+
 def gen_input(logdir, call_no, N, tfail, ifail, rng, exc="TaskFail"):
     for i in range(N):
         if ifail is not None and i == ifail:
@@ -75,7 +79,16 @@ def gen_input(logdir, call_no, N, tfail, ifail, rng, exc="TaskFail"):
         d = rng.choice([0, 0, 0.001, 0.003])
         if SLOW[0] and call_no == 1:
             d = 0.3 if i in tfail else SLOW[0]      # the other tasks of the failing call are still running when it fails
-        yield delayed(task)(logdir, call_no, i, i in tfail, d, exc)
+        if FASTFAIL[0] and call_no == 1:
+            # the failure is immediate, the other tasks take their time, and the first one keeps an ordered caller waiting
+            d = 0 if i in tfail else (1.5 if i == 0 else 0.05)
+        PULLS[call_no] = i + 1
+        if i in tfail and exc == "UnpicklableArg":
+            import threading
+            # the task cannot even be handed to a worker process
+            yield delayed(task)(logdir, call_no, i, False, d, exc, threading.Lock())
+        else:
+            yield delayed(task)(logdir, call_no, i, i in tfail, d, exc)
     if ifail is not None and ifail >= N:
         raise KeyError("input failed", N)
 
@@ -122,6 +135,8 @@ def one_call(p, c, logdir, call_no, rng, tfail, ifail):
 def run(c):
     rng = random.Random(c.get("seed", 0))
     SLOW[0] = c.get("slow", 0)
+    FASTFAIL[0] = bool(c.get("fastfail"))
+    PULLS.clear()
     logdir = tempfile.mkdtemp(prefix="verif-m1real-")
     kw = dict(n_jobs=c["n_jobs"], batch_size=c["batch_size"], pre_dispatch=c["pre_dispatch"],
               return_as=c["return_as"], verbose=c.get("verbose", 0))
@@ -162,7 +177,7 @@ def run(c):
         pass
     import shutil
     shutil.rmtree(logdir, ignore_errors=True)
-    return {"calls": list(calls), "execs": execs, "hang": hang}
+    return {"calls": list(calls), "execs": execs, "hang": hang, "pulls": {str(k): v for k, v in PULLS.items()}}
 
 
 for line in sys.stdin:
